@@ -84,7 +84,8 @@ def generate(seed, mode):
             ops.append({'op': 'rebase_empty', 'n': o.randrange(64), 'k': k})
         else:
             ops.append({'op': 'rebase', 'n': o.randrange(64),
-                        'bases': [o.randrange(64) for _ in range(o.choice([0, 1, 1, 2, 2, 3]))], 'k': k})
+                        'bases': [o.randrange(64) for _ in range(o.choice([0, 1, 1, 2, 2, 3]))],
+                        'mix': o.random() < 0.12, 'k': k})
     return {'machine': MACHINE, 'seed': seed,
             'world': {'ibases': ibases, 'iattrs': iattrs, 'itags': itags, 'iinv': iinv, 'decls': decls,
                       'chk_p': chk_p, 'fresh_p': w.choice([0, 20, 50])},
@@ -349,7 +350,7 @@ def execute(program, ctx, mode):
                                       {'node': s, 'sro': got, 'python': mro[s], 'bases': dict(bases_of)})
                 if not consistent:
                     ctx.probe('inconsistent-node')
-                if kind[s] == 'I':
+                if kind[s] == 'I' and all(kind[x] == 'I' or x == 'Interface' for x in rs):
                     # interface-only ancestry: Interface is a common root, literal C3 == forced-last C3
                     try:
                         zro.ro(S, strict=True)
@@ -389,7 +390,7 @@ def execute(program, ctx, mode):
             if l in twin:
                 return twin[l]
             bs = tuple(build(b) for b in bases_of[l])
-            if kind[l] == 'I':
+            if kind[l] == 'I' and all(isinstance(b, InterfaceClass) for b in bs):
                 twin[l] = InterfaceClass(pre + l, bs, {}, __module__='zisim.t')
             else:
                 twin[l] = Specification(bs)
@@ -609,8 +610,10 @@ def execute(program, ctx, mode):
                     r = [str(e.args[0]) for e in errs]
             else:
                 r = [lab(x) for x in I.__iro__]
-        except KeyError:
-            r = 'KeyError'
+        except (KeyError, AttributeError) as e:
+            # AttributeError: the accessors that recurse over __bases__ do not support an
+            # interface re-based onto a non-interface specification (only generated in 'mix' rebasings)
+            r = type(e).__name__
         ctx.probe('accessor-%d' % a)
         ctx.log(ctx.step, 'q', a, s, n, r)
 
@@ -686,7 +689,10 @@ def execute(program, ctx, mode):
             if not L:
                 continue
             s = L[op['n'] % len(L)]
-            pool = [l for l in L if kind[l] == 'I'] if kind[s] == 'I' else L
+            # an interface is normally re-based onto interfaces; 'mix' also allows any specification
+            pool = [l for l in L if kind[l] == 'I'] if (kind[s] == 'I' and not op.get('mix')) else L
+            if kind[s] == 'I' and op.get('mix'):
+                ctx.probe('interface-rebased-onto-any-spec')
             bl = resolve_bases(s, op['bases'], pool)
             mb = list(bl)
             if kind[s] == 'I' and not mb:
